@@ -1,16 +1,1148 @@
-//! C10 — not built yet (stub; see DESIGN.md §5).
-use crate::ctx::Tier;
-use serde_json::Value;
+//! C10 — a failed or interrupted pull never publishes a file, and never a partial one.
+//!
+//! Three hook-free parts (DESIGN.md §5 C10), all on the real `repe::value_stream`
+//! pullers talking over loopback TCP to a harness server that fronts the REAL
+//! `/_svs/*` handlers (module `c10_srv`):
+//!
+//!  1. in-process fault enumeration: pullers × compression × destination state ×
+//!     every producer-failure byte position, every connection-cut point, scripted
+//!     errors, missing `last`, rejecting / tampered verification, trailer ≥ stream,
+//!     un-renameable destination; oracle on the returned value and on a full
+//!     snapshot of the destination directory;
+//!  2. the same pulls in a child process killed by `strace` fault injection
+//!     (SIGKILL on syscall entry) at every file-system syscall touching the temp /
+//!     destination path and at every socket receive; oracle on the directory;
+//!  3. the strace-recorded write/fsync/rename history of a successful pull is fed
+//!     to a small crash model (module `c10_os`): every prefix × every subset of
+//!     un-synced writes dropped must leave the destination old or complete.
 
-pub fn run(_tier: Tier) -> ! {
-    eprintln!("MACHINERY-ERROR property=C10 check not built yet");
-    std::process::exit(2)
+#[path = "c10_os.rs"]
+mod os;
+#[path = "c10_srv.rs"]
+mod srv;
+
+use crate::ctx::{Ctx, Samples, Tier};
+use repe::value_stream::{self as vs, Compression, RouterValueStreamExt, StreamOpts};
+use repe::{AsyncClient, BodyFormat, Client, RepeError, Router};
+use serde::{Deserialize, Serialize};
+use serde_json::{Value, json};
+use std::collections::{BTreeMap, BTreeSet};
+use std::io::Write;
+use std::path::{Path, PathBuf};
+use std::sync::atomic::{AtomicU64, Ordering};
+use std::sync::{Arc, Mutex};
+use std::time::Duration;
+
+// ------------------------------------------------------------------ case space
+
+#[derive(Clone, Copy, Debug, PartialEq, Eq, PartialOrd, Ord, Serialize, Deserialize)]
+pub enum Puller {
+    File,
+    BeveFile,
+    BeveZstFile,
+    TrailerFile,
+    FileAsync,
+    VerifiedAsync,
+    TrailerAsync,
+    Value,
+    ValueAsync,
 }
 
-pub fn replay(_case: &Value) -> Result<(), String> {
-    Err("no replay for C10 yet".into())
+pub const ALL_PULLERS: [Puller; 9] = [
+    Puller::File,
+    Puller::BeveFile,
+    Puller::BeveZstFile,
+    Puller::TrailerFile,
+    Puller::FileAsync,
+    Puller::VerifiedAsync,
+    Puller::TrailerAsync,
+    Puller::Value,
+    Puller::ValueAsync,
+];
+
+impl Puller {
+    pub fn name(self) -> &'static str {
+        match self {
+            Puller::File => "pull_to_file",
+            Puller::BeveFile => "pull_to_beve_file",
+            Puller::BeveZstFile => "pull_to_beve_zst_file",
+            Puller::TrailerFile => "pull_to_file_trailer_verified",
+            Puller::FileAsync => "pull_to_file_async",
+            Puller::VerifiedAsync => "pull_to_file_verified_async",
+            Puller::TrailerAsync => "pull_to_file_trailer_verified_async",
+            Puller::Value => "pull_value",
+            Puller::ValueAsync => "pull_value_async",
+        }
+    }
+    pub fn is_value(self) -> bool {
+        matches!(self, Puller::Value | Puller::ValueAsync)
+    }
+    pub fn is_async(self) -> bool {
+        matches!(self, Puller::FileAsync | Puller::VerifiedAsync | Puller::TrailerAsync | Puller::ValueAsync)
+    }
+    pub fn has_trailer(self) -> bool {
+        matches!(self, Puller::TrailerFile | Puller::TrailerAsync)
+    }
+    pub fn verifies(self) -> bool {
+        matches!(self, Puller::TrailerFile | Puller::TrailerAsync | Puller::VerifiedAsync)
+    }
+    /// the stream tags this puller accepts
+    pub fn compatible(self, zstd: bool) -> bool {
+        match self {
+            Puller::BeveFile | Puller::BeveZstFile => zstd,
+            _ => true,
+        }
+    }
+    fn wants_beve_tag(self) -> bool {
+        matches!(self, Puller::BeveFile | Puller::BeveZstFile | Puller::Value | Puller::ValueAsync)
+    }
 }
 
-pub fn worker(_args: &[String]) {
-    std::process::exit(2)
+#[derive(Clone, Copy, Debug, PartialEq, Eq, PartialOrd, Ord, Serialize, Deserialize)]
+pub enum Tamper {
+    None,
+    Payload,
+    Trailer,
+}
+
+/// Everything that determines the producer's byte stream and the puller call.
+#[derive(Clone, Debug, PartialEq, Eq, PartialOrd, Ord, Serialize, Deserialize)]
+pub struct Cfg {
+    pub puller: Puller,
+    pub zstd: bool,
+    /// logical stream length (file pullers) / element count of the value (value pullers)
+    pub n: usize,
+    pub chunk: usize,
+    /// trailer length handed to the trailer-verified pullers (0 for the others)
+    pub trailer: usize,
+    pub tamper: Tamper,
+    /// the caller's verifier refuses whatever it is shown
+    pub reject: bool,
+}
+
+#[derive(Clone, Copy, Debug, PartialEq, Eq, PartialOrd, Ord, Serialize, Deserialize)]
+pub enum DestKind {
+    Absent,
+    Existing,
+    /// the destination path is a non-empty directory: the final rename must fail
+    DirNonEmpty,
+    /// the destination's parent directory does not exist: the temp sibling cannot be created
+    NoParent,
+}
+
+#[derive(Clone, Debug, PartialEq, Eq, PartialOrd, Ord, Serialize, Deserialize)]
+pub enum Fault {
+    None,
+    /// the producer's writer fails after emitting `p` logical bytes
+    ProducerFail { p: usize },
+    CutAfterResponse { k: usize },
+    CutOnRequest { k: usize },
+    /// scripted error frame as the answer to the k-th `next`
+    NextError { k: usize },
+    /// error response to `open` (unknown resource, real handler)
+    OpenError,
+    /// all bytes arrive, `last` is never sent, then EOF
+    NoLastThenEof,
+}
+
+impl Fault {
+    fn class(&self) -> &'static str {
+        match self {
+            Fault::None => "none",
+            Fault::ProducerFail { .. } => "producer-fail",
+            Fault::CutAfterResponse { .. } => "cut-after-response",
+            Fault::CutOnRequest { .. } => "cut-on-request",
+            Fault::NextError { .. } => "next-error",
+            Fault::OpenError => "open-error",
+            Fault::NoLastThenEof => "no-last-then-eof",
+        }
+    }
+}
+
+#[derive(Clone, Debug, PartialEq, Eq, PartialOrd, Ord, Serialize, Deserialize)]
+pub struct Case {
+    pub cfg: Cfg,
+    pub dest: DestKind,
+    pub fault: Fault,
+}
+
+pub const OLD_CONTENT: &[u8] = b"previous-destination-content/0123456789abcdef";
+const KEEP_NAME: &str = "keep.me";
+const KEEP_CONTENT: &[u8] = b"file inside the directory that squats the destination";
+pub const DEST_NAME: &str = "out.bin";
+
+#[derive(Serialize, Deserialize, PartialEq, Debug, Clone)]
+pub struct Val {
+    tag: String,
+    xs: Vec<u16>,
+    w: u32,
+}
+
+pub fn value_of(n: usize) -> Val {
+    Val { tag: format!("c10/{n}"), xs: (0..n).map(|i| (i * 7 + 1) as u16).collect(), w: 0xC10 }
+}
+
+fn pattern(n: usize) -> Vec<u8> {
+    (0..n).map(|i| ((i * 37 + 11) % 251) as u8 ^ 0x40).collect()
+}
+
+/// trailer the honest verifier expects for `payload`
+pub fn checksum(payload: &[u8], t: usize) -> Vec<u8> {
+    let mut acc: u32 = 0x9E37 + payload.len() as u32;
+    for (i, b) in payload.iter().enumerate() {
+        acc = acc.wrapping_mul(31).wrapping_add(*b as u32 + i as u32);
+    }
+    (0..t).map(|j| ((acc >> ((j % 4) * 8)) as u8) ^ (0xA5u8.wrapping_add(j as u8))).collect()
+}
+
+/// Logical byte stream the producer is asked to emit for `cfg`, WITHOUT tampering
+/// (what the consumer's out-of-band expectation is computed from).
+pub fn honest_logical(cfg: &Cfg) -> Vec<u8> {
+    if cfg.puller.is_value() {
+        return beve::to_vec(&value_of(cfg.n)).expect("beve encode");
+    }
+    if cfg.puller.has_trailer() && cfg.n >= cfg.trailer {
+        let mut p = pattern(cfg.n - cfg.trailer);
+        let t = checksum(&p, cfg.trailer);
+        p.extend_from_slice(&t);
+        return p;
+    }
+    pattern(cfg.n)
+}
+
+/// What the producer really emits (tampering applied).
+pub fn logical(cfg: &Cfg) -> Vec<u8> {
+    let mut l = honest_logical(cfg);
+    match cfg.tamper {
+        Tamper::None => {}
+        Tamper::Payload => {
+            if let Some(b) = l.first_mut() {
+                *b ^= 0x01;
+            }
+        }
+        Tamper::Trailer => {
+            if let Some(b) = l.last_mut() {
+                *b ^= 0x80;
+            }
+        }
+    }
+    l
+}
+
+/// true iff the tampering really changes what the verifier looks at
+fn tamper_effective(cfg: &Cfg) -> bool {
+    // with a zero-length trailer the stream carries no digest: the honest verifier has nothing to compare
+    if cfg.puller.has_trailer() && cfg.trailer == 0 {
+        return false;
+    }
+    cfg.tamper != Tamper::None && logical(cfg) != honest_logical(cfg)
+}
+
+// ------------------------------------------------------------------ running one pull
+
+#[derive(Clone, Debug, PartialEq)]
+pub enum Res {
+    Ok,
+    /// value pullers: Ok(v); the flag says v == the producer's value
+    OkValue(bool),
+    Err(String),
+    Panic(String),
+}
+
+impl Res {
+    pub fn is_ok(&self) -> bool {
+        matches!(self, Res::Ok | Res::OkValue(_))
+    }
+    fn class(&self) -> String {
+        match self {
+            Res::Ok => "ok".into(),
+            Res::OkValue(b) => format!("ok-value-{b}"),
+            Res::Panic(_) => "panic".into(),
+            // the message is NOT part of the class: after a cut, EOF / reset / broken pipe race
+            Res::Err(_) => "err".into(),
+        }
+    }
+}
+
+/// What the caller-supplied verifier was shown, and the destination state it saw.
+#[derive(Clone, Debug, Default)]
+pub struct VerifySeen {
+    pub calls: usize,
+    pub digest: Vec<u8>,
+    pub trailer: Vec<u8>,
+    /// snapshot of the destination path at the moment verify ran
+    pub dest_at_verify: Option<Entry>,
+}
+
+struct Sink(Arc<Mutex<Vec<u8>>>);
+impl Write for Sink {
+    fn write(&mut self, b: &[u8]) -> std::io::Result<usize> {
+        self.0.lock().unwrap().extend_from_slice(b);
+        Ok(b.len())
+    }
+    fn flush(&mut self) -> std::io::Result<()> {
+        Ok(())
+    }
+}
+
+fn verdict(cfg: &Cfg, ok: bool) -> Result<(), RepeError> {
+    if cfg.reject || !ok {
+        Err(RepeError::Io(std::io::Error::new(std::io::ErrorKind::InvalidData, "c10 verifier: digest mismatch")))
+    } else {
+        Ok(())
+    }
+}
+
+/// Call the puller named by `cfg` against the producer at 127.0.0.1:`port`.
+/// Runs on the calling thread (async pullers on a private current-thread runtime).
+pub fn do_pull(
+    cfg: &Cfg,
+    port: u16,
+    dest: &Path,
+    resource: &str,
+    seen: &Arc<Mutex<VerifySeen>>,
+    observe_dest: bool,
+) -> Res {
+    let addr = ("127.0.0.1", port);
+    let digest_buf = Arc::new(Mutex::new(Vec::new()));
+    let expected_full = honest_logical(cfg);
+    let record = |trailer: &[u8]| {
+        let mut s = seen.lock().unwrap();
+        s.calls += 1;
+        s.digest = digest_buf.lock().unwrap().clone();
+        s.trailer = trailer.to_vec();
+        // (not in the traced child: the harness must not add file-system syscalls of its own there)
+        s.dest_at_verify = if observe_dest { snapshot_path(dest) } else { None };
+    };
+    let to_res = |r: Result<(), RepeError>| match r {
+        Ok(()) => Res::Ok,
+        Err(e) => Res::Err(e.to_string()),
+    };
+    let val_res = |r: Result<Val, RepeError>| match r {
+        Ok(v) => Res::OkValue(v == value_of(cfg.n)),
+        Err(e) => Res::Err(e.to_string()),
+    };
+    if !cfg.puller.is_async() {
+        let client = match Client::connect(addr) {
+            Ok(c) => c,
+            Err(e) => return Res::Err(format!("connect: {e}")),
+        };
+        match cfg.puller {
+            Puller::File => to_res(vs::pull_to_file(&client, resource, dest)),
+            Puller::BeveFile => to_res(vs::pull_to_beve_file(&client, resource, dest)),
+            Puller::BeveZstFile => to_res(vs::pull_to_beve_zst_file(&client, resource, dest)),
+            Puller::TrailerFile => to_res(vs::pull_to_file_trailer_verified(
+                &client,
+                resource,
+                dest,
+                cfg.trailer,
+                Sink(digest_buf.clone()),
+                |_d, trailer| {
+                    record(trailer);
+                    let payload = digest_buf.lock().unwrap().clone();
+                    verdict(cfg, checksum(&payload, cfg.trailer) == trailer)
+                },
+            )),
+            Puller::Value => val_res(vs::pull_value::<Val>(&client, resource)),
+            _ => unreachable!(),
+        }
+    } else {
+        let rt = match tokio::runtime::Builder::new_current_thread().enable_all().build() {
+            Ok(rt) => rt,
+            Err(e) => return Res::Err(format!("runtime: {e}")),
+        };
+        rt.block_on(async {
+            let client = match AsyncClient::connect(addr).await {
+                Ok(c) => c,
+                Err(e) => return Res::Err(format!("connect: {e}")),
+            };
+            match cfg.puller {
+                Puller::FileAsync => to_res(vs::pull_to_file_async(&client, resource, dest).await.map(|_| ())),
+                Puller::VerifiedAsync => to_res(
+                    vs::pull_to_file_verified_async(&client, resource, dest, Sink(digest_buf.clone()), |_d| {
+                        record(&[]);
+                        let got = digest_buf.lock().unwrap().clone();
+                        verdict(cfg, got == expected_full)
+                    })
+                    .await,
+                ),
+                Puller::TrailerAsync => to_res(
+                    vs::pull_to_file_trailer_verified_async(
+                        &client,
+                        resource,
+                        dest,
+                        cfg.trailer,
+                        Sink(digest_buf.clone()),
+                        |_d, trailer| {
+                            record(trailer);
+                            let payload = digest_buf.lock().unwrap().clone();
+                            verdict(cfg, checksum(&payload, cfg.trailer) == trailer)
+                        },
+                    )
+                    .await,
+                ),
+                Puller::ValueAsync => val_res(vs::pull_value_async::<Val, _>(&client, resource).await),
+                _ => unreachable!(),
+            }
+        })
+    }
+}
+
+/// Router carrying the REAL SVS routes over a writer producer that emits
+/// `content[..fail_after]` and then fails (or all of it and succeeds).
+pub fn make_router(cfg: &Cfg, fail_after: Option<usize>) -> Router {
+    make_router_raw(logical(cfg), cfg.puller.wants_beve_tag(), cfg.chunk, cfg.zstd, fail_after)
+}
+
+pub fn make_router_raw(content: Vec<u8>, beve_tag: bool, chunk: usize, zstd: bool, fail_after: Option<usize>) -> Router {
+    let format = if beve_tag { BodyFormat::Beve } else { BodyFormat::RawBinary };
+    let opts = StreamOpts {
+        chunk_bytes: chunk,
+        compression: if zstd { Compression::Zstd } else { Compression::None },
+        zstd_level: 3,
+        session_depth: 2,
+    };
+    Router::new().with_writer_stream(
+        format,
+        move |res: &str| {
+            if res != "r" {
+                return None;
+            }
+            let content = content.clone();
+            Some(move |w: &mut dyn Write| -> std::io::Result<()> {
+                match fail_after {
+                    None => w.write_all(&content),
+                    Some(p) => {
+                        w.write_all(&content[..p.min(content.len())])?;
+                        Err(std::io::Error::other("c10 producer failure"))
+                    }
+                }
+            })
+        },
+        opts,
+    )
+}
+
+// ------------------------------------------------------------------ directory snapshots
+
+#[derive(Clone, Debug, PartialEq, Eq)]
+pub enum Entry {
+    File(Vec<u8>),
+    Dir(BTreeMap<String, Entry>),
+    Other,
+}
+
+pub fn snapshot_path(p: &Path) -> Option<Entry> {
+    let md = std::fs::symlink_metadata(p).ok()?;
+    if md.is_file() {
+        Some(Entry::File(std::fs::read(p).unwrap_or_default()))
+    } else if md.is_dir() {
+        let mut m = BTreeMap::new();
+        if let Ok(rd) = std::fs::read_dir(p) {
+            for e in rd.flatten() {
+                let name = e.file_name().to_string_lossy().to_string();
+                if let Some(s) = snapshot_path(&e.path()) {
+                    m.insert(name, s);
+                }
+            }
+        }
+        Some(Entry::Dir(m))
+    } else {
+        Some(Entry::Other)
+    }
+}
+
+pub fn snapshot_dir(p: &Path) -> BTreeMap<String, Entry> {
+    match snapshot_path(p) {
+        Some(Entry::Dir(m)) => m,
+        _ => BTreeMap::new(),
+    }
+}
+
+fn show_entry(e: Option<&Entry>) -> String {
+    match e {
+        None => "absent".into(),
+        Some(Entry::File(b)) => format!("file[{}]{}", b.len(), hex(&b[..b.len().min(24)])),
+        Some(Entry::Dir(m)) => format!("dir{:?}", m.keys().collect::<Vec<_>>()),
+        Some(Entry::Other) => "other".into(),
+    }
+}
+
+pub fn hex(b: &[u8]) -> String {
+    b.iter().map(|x| format!("{x:02x}")).collect()
+}
+
+static DIR_SEQ: AtomicU64 = AtomicU64::new(0);
+
+/// Fresh private directory under the system temp dir; removed by `Drop`.
+pub struct CaseDir {
+    pub root: PathBuf,
+}
+impl CaseDir {
+    pub fn new() -> std::io::Result<CaseDir> {
+        let root = std::env::temp_dir().join(format!(
+            "c10-{}-{}",
+            std::process::id(),
+            DIR_SEQ.fetch_add(1, Ordering::Relaxed)
+        ));
+        let _ = std::fs::remove_dir_all(&root);
+        std::fs::create_dir_all(root.join("d"))?;
+        Ok(CaseDir { root })
+    }
+    /// the directory the destination lives in (its whole content is snapshotted)
+    pub fn work(&self) -> PathBuf {
+        self.root.join("d")
+    }
+    pub fn setup_dest(&self, kind: DestKind) -> std::io::Result<PathBuf> {
+        let dest = match kind {
+            DestKind::NoParent => self.work().join("missing").join(DEST_NAME),
+            _ => self.work().join(DEST_NAME),
+        };
+        match kind {
+            DestKind::Absent | DestKind::NoParent => {}
+            DestKind::Existing => {
+                std::fs::write(&dest, OLD_CONTENT)?;
+            }
+            DestKind::DirNonEmpty => {
+                std::fs::create_dir(&dest)?;
+                std::fs::write(dest.join(KEEP_NAME), KEEP_CONTENT)?;
+            }
+        }
+        Ok(dest)
+    }
+}
+impl Drop for CaseDir {
+    fn drop(&mut self) {
+        let _ = std::fs::remove_dir_all(&self.root);
+    }
+}
+
+pub fn temp_sibling(dest: &Path) -> PathBuf {
+    let mut name = dest.file_name().unwrap().to_os_string();
+    name.push(".svspart");
+    dest.with_file_name(name)
+}
+
+// ------------------------------------------------------------------ part 1: one case
+
+pub struct Obs {
+    pub res: Res,
+    pub seen: VerifySeen,
+    pub before: BTreeMap<String, Entry>,
+    pub after: BTreeMap<String, Entry>,
+    pub log: srv::Log,
+    pub hang: bool,
+}
+
+fn script_of(f: &Fault) -> (srv::Script, Option<usize>, &'static str) {
+    let mut s = srv::Script::default();
+    let mut fail = None;
+    let mut resource = "r";
+    match f {
+        Fault::None => {}
+        Fault::ProducerFail { p } => fail = Some(*p),
+        Fault::CutAfterResponse { k } => s.cut_after_response = Some(*k),
+        Fault::CutOnRequest { k } => s.cut_on_request = Some(*k),
+        Fault::NextError { k } => s.next_error_at = Some(*k),
+        Fault::OpenError => resource = "no-such-resource",
+        Fault::NoLastThenEof => s.strip_last = true,
+    }
+    (s, fail, resource)
+}
+
+pub fn run_case(case: &Case, listener: &std::net::TcpListener) -> Result<Obs, String> {
+    let (_, fail, _) = script_of(&case.fault);
+    run_case_on(case, make_router(&case.cfg, fail), listener)
+}
+
+fn run_case_on(case: &Case, router: Router, listener: &std::net::TcpListener) -> Result<Obs, String> {
+    let dir = CaseDir::new().map_err(|e| format!("case dir: {e}"))?;
+    let dest = dir.setup_dest(case.dest).map_err(|e| format!("dest setup: {e}"))?;
+    let before = snapshot_dir(&dir.work());
+    let (script, _fail, resource) = script_of(&case.fault);
+    let server =
+        srv::start(listener, router, script, Some(temp_sibling(&dest))).map_err(|e| format!("server: {e}"))?;
+    let port = server.port;
+    let seen = Arc::new(Mutex::new(VerifySeen::default()));
+    let (tx, rx) = std::sync::mpsc::channel();
+    let (cfg, dest2, seen2) = (case.cfg.clone(), dest.clone(), seen.clone());
+    let th = std::thread::Builder::new()
+        .name("c10-pull".into())
+        .spawn(move || {
+            let r = std::panic::catch_unwind(std::panic::AssertUnwindSafe(|| {
+                do_pull(&cfg, port, &dest2, resource, &seen2, true)
+            }));
+            let r = match r {
+                Ok(r) => r,
+                Err(p) => Res::Panic(
+                    p.downcast_ref::<String>()
+                        .cloned()
+                        .or_else(|| p.downcast_ref::<&str>().map(|s| s.to_string()))
+                        .unwrap_or_else(|| "panic".into()),
+                ),
+            };
+            let _ = tx.send(r);
+        })
+        .map_err(|e| format!("spawn: {e}"))?;
+    let (res, hang) = match rx.recv_timeout(Duration::from_secs(60)) {
+        Ok(r) => (r, false),
+        Err(_) => (Res::Err("watchdog: pull did not return within 60 s".into()), true),
+    };
+    let log = server.finish();
+    if !hang {
+        let _ = th.join();
+    }
+    let after = snapshot_dir(&dir.work());
+    let seen = seen.lock().unwrap().clone();
+    Ok(Obs { res, seen, before, after, log, hang })
+}
+
+/// Reference run of the same configuration without any fault: the complete wire stream.
+#[derive(Clone, Debug)]
+pub struct Baseline {
+    pub wire: Vec<u8>,
+    pub responses: usize,
+    pub nexts: usize,
+}
+
+pub struct Bad {
+    pub key: String,
+    pub what: String,
+}
+
+/// The content a successful pull must leave at the destination.
+fn expected_file(cfg: &Cfg, base: &Baseline) -> Vec<u8> {
+    match cfg.puller {
+        Puller::BeveZstFile => base.wire.clone(),
+        Puller::TrailerFile | Puller::TrailerAsync => {
+            let l = logical(cfg);
+            l[..l.len().saturating_sub(cfg.trailer)].to_vec()
+        }
+        _ => logical(cfg),
+    }
+}
+
+/// Oracle of part 1. Every clause is a sentence of the property statement.
+pub fn judge(case: &Case, base: &Baseline, o: &Obs) -> Vec<Bad> {
+    let mut bad = Vec::new();
+    let cfg = &case.cfg;
+    let p = cfg.puller.name();
+    let fc = case.fault.class();
+    let delivered = o.log.delivered();
+    let all_bytes = delivered == base.wire;
+    let complete = all_bytes && o.log.last_sent();
+    let content_ok = !cfg.reject
+        && !(cfg.puller.verifies() && tamper_effective(cfg))
+        && !(cfg.puller.has_trailer() && cfg.n < cfg.trailer);
+    let dest_ok = matches!(case.dest, DestKind::Absent | DestKind::Existing);
+    let compat = cfg.puller.compatible(cfg.zstd);
+    let ctx = || {
+        format!(
+            "{p} zstd={} n={} chunk={} trailer={} tamper={:?} reject={} dest={:?} fault={:?}: result={:?}; producer sent {} chunk(s) / {} of {} wire bytes, last={}",
+            cfg.zstd, cfg.n, cfg.chunk, cfg.trailer, cfg.tamper, cfg.reject, case.dest, case.fault, o.res,
+            o.log.chunks.len(), delivered.len(), base.wire.len(), o.log.last_sent()
+        )
+    };
+    let dest_name = DEST_NAME.to_string();
+    if cfg.puller.is_value() {
+        // "a value-decoding pull returns an error rather than a value built from a truncated stream"
+        match &o.res {
+            Res::OkValue(eq) => {
+                if !all_bytes {
+                    bad.push(Bad { key: format!("C10:value-from-truncated-stream:{fc}:{p}"), what: ctx() });
+                } else if !*eq {
+                    // every byte arrived and the value still differs: a fidelity defect (C09), not C10
+                    bad.push(Bad { key: String::new(), what: format!("note: value differs although the whole stream arrived: {}", ctx()) });
+                }
+            }
+            _ => {}
+        }
+        return bad;
+    }
+    let ok_allowed = complete && content_ok && dest_ok;
+    if o.res.is_ok() && !compat {
+        // the up-front tag check (zstd-only outputs) is not part of this property: remark only
+        bad.push(Bad { key: String::new(), what: format!("note: Ok although the stream tags do not fit the output: {}", ctx()) });
+    } else if o.res.is_ok() {
+        // "publishes the destination only after the whole stream arrived, passed any
+        //  caller-supplied verification ..." — Ok on a pull that must fail
+        if !ok_allowed {
+            let why = if !complete {
+                "incomplete-stream"
+            } else if !content_ok {
+                "verification-must-reject"
+            } else {
+                "unpublishable-destination"
+            };
+            bad.push(Bad { key: format!("C10:ok-on-failed-pull:{why}:{fc}:{p}"), what: ctx() });
+        }
+        // "the destination then holds exactly the complete content (with a verified trailer stripped)"
+        let want = expected_file(cfg, base);
+        let mut want_dir = o.before.clone();
+        want_dir.insert(dest_name.clone(), Entry::File(want.clone()));
+        if dest_ok && o.after.get(&dest_name) != Some(&Entry::File(want.clone())) {
+            bad.push(Bad {
+                key: format!("C10:published-content-wrong:{fc}:{p}"),
+                what: format!(
+                    "{} ; destination is {} but the complete content is file[{}]{}",
+                    ctx(),
+                    show_entry(o.after.get(&dest_name)),
+                    want.len(),
+                    hex(&want[..want.len().min(24)])
+                ),
+            });
+        } else if dest_ok && o.after != want_dir {
+            // not forbidden by the statement (only FAILED pulls must leave no temp file): a remark
+            bad.push(Bad {
+                key: String::new(),
+                what: format!("note: stray file after a successful pull: {} ; directory now holds {:?}", ctx(), o.after.keys().collect::<Vec<_>>()),
+            });
+        }
+        if cfg.puller.verifies() && dest_ok {
+            // "passed any caller-supplied verification": what was verified is what was published
+            let l = logical(cfg);
+            let t = if cfg.puller.has_trailer() { cfg.trailer.min(l.len()) } else { 0 };
+            let want_trailer = l[l.len() - t..].to_vec();
+            if o.seen.calls != 1 || o.seen.digest != want || o.seen.trailer != want_trailer {
+                bad.push(Bad {
+                    key: format!("C10:verify-inputs-differ-from-published:{p}"),
+                    what: format!(
+                        "{} ; verify calls={} digest saw [{}]{} trailer {} (published payload [{}], trailer {})",
+                        ctx(),
+                        o.seen.calls,
+                        o.seen.digest.len(),
+                        hex(&o.seen.digest[..o.seen.digest.len().min(24)]),
+                        hex(&o.seen.trailer),
+                        want.len(),
+                        hex(&want_trailer)
+                    ),
+                });
+            }
+        }
+    } else {
+        // "the destination path is left exactly as it was (absent, or its previous content)"
+        if o.after.get(&dest_name) != o.before.get(&dest_name) {
+            bad.push(Bad {
+                key: format!("C10:dest-changed-on-failure:{fc}:{p}"),
+                what: format!(
+                    "{} ; destination was {} and is now {}",
+                    ctx(),
+                    show_entry(o.before.get(&dest_name)),
+                    show_entry(o.after.get(&dest_name))
+                ),
+            });
+        } else if o.after != o.before {
+            // "a failed in-process pull leaves no temporary file"
+            let extra: Vec<_> = o.after.keys().filter(|k| !o.before.contains_key(*k)).collect();
+            bad.push(Bad {
+                key: format!("C10:temp-left-on-failure:{fc}:{p}"),
+                what: format!("{} ; left behind {:?}", ctx(), extra),
+            });
+        }
+    }
+    // "publishes the destination only after [it] passed any caller-supplied verification":
+    // at the moment the verifier runs the destination must still be untouched
+    if o.seen.calls > 0 && o.seen.dest_at_verify.as_ref() != o.before.get(&dest_name) {
+        bad.push(Bad {
+            key: format!("C10:published-before-verify:{p}"),
+            what: format!(
+                "{} ; when verify ran the destination already was {}",
+                ctx(),
+                show_entry(o.seen.dest_at_verify.as_ref())
+            ),
+        });
+    }
+    bad
+}
+
+// ------------------------------------------------------------------ part 1: enumeration
+
+#[derive(Default)]
+struct P1Stats {
+    cases: u64,
+    ok_rows: u64,
+    err_rows: u64,
+    panics: u64,
+    /// fault hit after >= 1 data chunk was delivered and before the stream was complete
+    midstream: u64,
+    /// sync pullers: a non-empty partial temp sibling was seen by the producer before the fault
+    partial_temp_seen: u64,
+    temp_seen: u64,
+    verify_rejects: u64,
+    verify_accepts: u64,
+    short_for_trailer: u64,
+    empty_payload_commits: u64,
+    rename_failures: u64,
+    expected_ok_failed: Vec<String>,
+    by_fault: BTreeMap<String, u64>,
+    outcomes: BTreeSet<String>,
+    nontrivial: BTreeSet<String>,
+    hangs: Vec<String>,
+    setup_errors: Vec<String>,
+    remarks: Vec<String>,
+}
+
+fn cfgs(tier: Tier) -> Vec<Cfg> {
+    let chunks: Vec<usize> = tier.pick(vec![4], vec![3, 4, 8]);
+    let mut out = Vec::new();
+    for &puller in &ALL_PULLERS {
+        for zstd in [false, true] {
+            for &chunk in &chunks {
+                let ns: Vec<usize> = if puller.is_value() {
+                    tier.pick(vec![0, 3], vec![0, 1, 3, 6])
+                } else {
+                    tier.pick(vec![0, 1, chunk, 2 * chunk + 1, 3 * chunk + 1], (0..=3 * chunk + 1).collect())
+                };
+                for &n in &ns {
+                    let trailers: Vec<usize> = if puller.has_trailer() {
+                        let mut t = tier.pick(vec![0, 1, 3], vec![0, 1, 2, 3, 5]);
+                        // trailer == stream (empty payload) and trailer > stream, for every n
+                        t.push(n);
+                        t.push(n + 1);
+                        t.sort();
+                        t.dedup();
+                        t
+                    } else {
+                        vec![0]
+                    };
+                    for &trailer in &trailers {
+                        out.push(Cfg { puller, zstd, n, chunk, trailer, tamper: Tamper::None, reject: false });
+                        if puller.verifies() {
+                            out.push(Cfg { puller, zstd, n, chunk, trailer, tamper: Tamper::None, reject: true });
+                            if puller.has_trailer() && trailer == 0 {
+                                continue;
+                            }
+                            out.push(Cfg { puller, zstd, n, chunk, trailer, tamper: Tamper::Payload, reject: false });
+                            if puller.has_trailer() {
+                                out.push(Cfg { puller, zstd, n, chunk, trailer, tamper: Tamper::Trailer, reject: false });
+                            }
+                        }
+                    }
+                }
+            }
+        }
+    }
+    out
+}
+
+/// All fault rows of one configuration, given its measured fault-free shape.
+fn faults_for(cfg: &Cfg, base: &Baseline) -> Vec<(DestKind, Fault)> {
+    let mut v = Vec::new();
+    let plain = cfg.tamper == Tamper::None && !cfg.reject;
+    for dest in [DestKind::Absent, DestKind::Existing] {
+        v.push((dest, Fault::None));
+        if !plain {
+            // verifier-rejection rows: the stream itself is delivered completely
+            continue;
+        }
+        let l = logical(cfg).len();
+        for p in 0..=l {
+            v.push((dest, Fault::ProducerFail { p }));
+        }
+        for k in 1..=base.responses {
+            v.push((dest, Fault::CutAfterResponse { k }));
+            v.push((dest, Fault::CutOnRequest { k }));
+        }
+        for k in 1..=base.nexts {
+            v.push((dest, Fault::NextError { k }));
+        }
+        v.push((dest, Fault::OpenError));
+        v.push((dest, Fault::NoLastThenEof));
+    }
+    if plain && !cfg.puller.is_value() {
+        v.push((DestKind::DirNonEmpty, Fault::None));
+        v.push((DestKind::NoParent, Fault::None));
+    }
+    v
+}
+
+/// The complete wire stream of `cfg`'s producer and the number of responses a
+/// full drain takes, MEASURED by draining the same producer with `pull_to_file`
+/// (which accepts every tag combination and reads to the final chunk).
+fn baseline_of(cfg: &Cfg, listener: &std::net::TcpListener) -> Result<Baseline, String> {
+    let drain = Cfg { puller: Puller::File, trailer: 0, tamper: Tamper::None, reject: false, ..cfg.clone() };
+    let case = Case { cfg: drain, dest: DestKind::Absent, fault: Fault::None };
+    let router = make_router_raw(logical(cfg), false, cfg.chunk, cfg.zstd, None);
+    let o = run_case_on(&case, router, listener)?;
+    if o.hang {
+        return Err(format!("baseline hang for {cfg:?}"));
+    }
+    if !o.log.last_sent() || !o.res.is_ok() {
+        return Err(format!("baseline drain of {cfg:?} did not reach the final chunk: {:?} / {:?}", o.res, o.log));
+    }
+    Ok(Baseline { wire: o.log.delivered(), responses: o.log.responses, nexts: o.log.chunks.len() })
+}
+
+/// For pullers that refuse the stream tags up front nothing is pulled; the wire
+/// stream of the equivalent accepted configuration is irrelevant.
+fn run_part1(ctx: &Ctx, tier: Tier, samples: &Samples) -> (P1Stats, Value) {
+    let cfgs = cfgs(tier);
+    // phase A: baselines (parallel)
+    let bases: Vec<Mutex<Option<Result<Baseline, String>>>> = cfgs.iter().map(|_| Mutex::new(None)).collect();
+    let mk = |_w: usize| match srv::new_listener() {
+        Ok(l) => l,
+        Err(e) => ctx.machinery(format!("cannot bind a loopback listener: {e}")),
+    };
+    crate::par::for_each_index(cfgs.len() as u64, 1, mk, |l, i| {
+        *bases[i as usize].lock().unwrap() = Some(baseline_of(&cfgs[i as usize], l));
+    });
+    let mut all: Vec<(usize, DestKind, Fault)> = Vec::new();
+    let mut base_vec: Vec<Baseline> = Vec::new();
+    for (i, b) in bases.iter().enumerate() {
+        match b.lock().unwrap().take().unwrap() {
+            Ok(b) => {
+                for (d, f) in faults_for(&cfgs[i], &b) {
+                    all.push((i, d, f));
+                }
+                base_vec.push(b);
+            }
+            Err(e) => ctx.machinery(format!("part 1 baseline failed: {e}")),
+        }
+    }
+    let stats = Mutex::new(P1Stats::default());
+    crate::par::for_each_index(all.len() as u64, 4, mk, |l, i| {
+        let (ci, dest, fault) = &all[i as usize];
+        let case = Case { cfg: cfgs[*ci].clone(), dest: *dest, fault: fault.clone() };
+        let base = &base_vec[*ci];
+        let o = match run_case(&case, l) {
+            Ok(o) => o,
+            Err(e) => {
+                stats.lock().unwrap().setup_errors.push(e);
+                return;
+            }
+        };
+        let bad = judge(&case, base, &o);
+        let case_json = json!({"part": 1, "case": serde_json::to_value(&case).unwrap()});
+        let mut remarks = Vec::new();
+        for b in &bad {
+            if b.key.is_empty() {
+                remarks.push(b.what.clone());
+            } else {
+                ctx.violation(b.key.clone(), b.what.clone(), case_json.clone());
+            }
+        }
+        let mut s = stats.lock().unwrap();
+        s.remarks.extend(remarks);
+        s.cases += 1;
+        if o.hang {
+            s.hangs.push(format!("{case:?}"));
+        }
+        *s.by_fault.entry(case.fault.class().to_string()).or_default() += 1;
+        match &o.res {
+            r if r.is_ok() => s.ok_rows += 1,
+            Res::Panic(_) => {
+                s.panics += 1;
+                s.err_rows += 1
+            }
+            _ => s.err_rows += 1,
+        }
+        let delivered = o.log.delivered();
+        let complete = delivered == base.wire && o.log.last_sent();
+        let faulty = case.fault != Fault::None;
+        if faulty && !complete && o.log.data_chunks() >= 1 {
+            s.midstream += 1;
+        }
+        if faulty && !case.cfg.puller.is_async() {
+            if o.log.temp_at_request.iter().any(|t| t.is_some()) {
+                s.temp_seen += 1;
+            }
+            if !complete && o.log.temp_at_request.iter().any(|t| matches!(t, Some(n) if *n > 0)) {
+                s.partial_temp_seen += 1;
+            }
+        }
+        if o.seen.calls > 0 {
+            if o.res.is_ok() {
+                s.verify_accepts += 1;
+            } else {
+                s.verify_rejects += 1;
+            }
+        }
+        let c = &case.cfg;
+        if c.puller.has_trailer() && c.n < c.trailer && !faulty && !o.res.is_ok() {
+            s.short_for_trailer += 1;
+        }
+        if c.puller.has_trailer() && c.n == c.trailer && !faulty && o.res.is_ok() {
+            s.empty_payload_commits += 1;
+        }
+        if case.dest == DestKind::DirNonEmpty && !o.res.is_ok() {
+            s.rename_failures += 1;
+        }
+        let content_ok = !c.reject
+            && !(c.puller.verifies() && tamper_effective(c))
+            && !(c.puller.has_trailer() && c.n < c.trailer);
+        if !faulty
+            && content_ok
+            && c.puller.compatible(c.zstd)
+            && matches!(case.dest, DestKind::Absent | DestKind::Existing)
+            && !matches!(o.res, Res::Ok | Res::OkValue(true))
+        {
+            s.expected_ok_failed.push(format!("{case:?} -> {:?}", o.res));
+        }
+        s.outcomes.insert(format!("{}|{}", case.fault.class(), o.res.class()));
+        if faulty || !content_ok || !matches!(case.dest, DestKind::Absent | DestKind::Existing) {
+            s.nontrivial.insert(format!(
+                "{}|{}|{:?}|{}|t{}r{}{:?}",
+                c.puller.name(),
+                case.fault.class(),
+                case.dest,
+                o.res.class(),
+                (c.n < c.trailer) as u8,
+                c.reject as u8,
+                c.tamper
+            ));
+        }
+        drop(s);
+        // deterministic choice of samples: evenly spaced case indices
+        let stride = (all.len() as u64).div_ceil(6).max(1);
+        if i % stride != 0 {
+            return;
+        }
+        samples.offer(|| {
+            json!({"part": 1, "case": serde_json::to_value(&case).unwrap(), "result": o.res.class(),
+                   "chunks_sent": o.log.chunks.len(), "wire_bytes_sent": delivered.len(), "wire_bytes_total": base.wire.len(),
+                   "dir_after": o.after.keys().collect::<Vec<_>>()})
+        });
+    });
+    let s = stats.into_inner().unwrap();
+    let cov = json!({
+        "configurations": cfgs.len(),
+        "cases": s.cases,
+        "ok_rows": s.ok_rows,
+        "err_rows": s.err_rows,
+        "panics": s.panics,
+        "faults_reaching_midstream": s.midstream,
+        "sync_faults_with_temp_sibling_present": s.temp_seen,
+        "sync_faults_with_partial_nonempty_temp": s.partial_temp_seen,
+        "verifier_accepts": s.verify_accepts,
+        "verifier_rejects": s.verify_rejects,
+        "stream_shorter_than_trailer_rejected": s.short_for_trailer,
+        "trailer_equals_stream_committed_empty": s.empty_payload_commits,
+        "rename_onto_directory_failed": s.rename_failures,
+        "cases_by_fault": s.by_fault,
+        "distinct_fault_outcome_pairs": s.outcomes.len(),
+    });
+    (s, cov)
+}
+
+// ------------------------------------------------------------------ entry points
+
+pub fn run(tier: Tier) -> ! {
+    let ctx = Ctx::new("C10", tier);
+    let samples = Samples::new(6);
+    let samples_os = Samples::new(8);
+    let prev_hook = std::panic::take_hook();
+    std::panic::set_hook(Box::new(|_| {}));
+
+    let t0 = std::time::Instant::now();
+    let (p1, p1cov) = run_part1(&ctx, tier, &samples);
+    let t1 = t0.elapsed().as_secs_f64();
+    let p23 = os::run_parts_2_3(&ctx, tier, &samples_os);
+    let t2 = t0.elapsed().as_secs_f64() - t1;
+    eprintln!("[C10] part 1: {} cases in {t1:.1}s; parts 2+3: {} child runs, {} crash states in {t2:.1}s", p1.cases, p23.kill_runs, p23.crash_states);
+
+    std::panic::set_hook(prev_hook);
+
+    {
+        let mut r = p1.remarks.clone();
+        r.sort();
+        if let Some(first) = r.first() {
+            ctx.note(format!("{} remark(s) outside the property, first: {first}", r.len()));
+        }
+    }
+    if !p1.setup_errors.is_empty() {
+        ctx.machinery(format!("part 1 harness setup failed: {}", p1.setup_errors[0]));
+    }
+    if !p1.hangs.is_empty() && !ctx.has_violation() {
+        ctx.machinery(format!("part 1: pull hung (watchdog) in {} case(s), first {}", p1.hangs.len(), p1.hangs[0]));
+    }
+    if !ctx.has_violation() {
+        if !p1.expected_ok_failed.is_empty() {
+            ctx.machinery(format!(
+                "vacuity: {} fault-free pull(s) did not succeed, first: {}",
+                p1.expected_ok_failed.len(),
+                p1.expected_ok_failed[0]
+            ));
+        }
+        if p1.midstream == 0
+            || p1.partial_temp_seen == 0
+            || p1.ok_rows == 0
+            || p1.verify_rejects == 0
+            || p1.verify_accepts == 0
+            || p1.short_for_trailer == 0
+            || p1.empty_payload_commits == 0
+            || p1.rename_failures == 0
+        {
+            ctx.machinery(format!("vacuity in part 1: {p1cov}"));
+        }
+        if let Some(msg) = p23.vacuity() {
+            ctx.machinery(format!("vacuity in parts 2/3: {msg}"));
+        }
+    }
+    let mut all_samples = samples.take();
+    all_samples.extend(samples_os.take());
+    all_samples.sort_by_key(|v| v.to_string());
+    let evaluations = p1.cases + p23.kill_runs + p23.crash_states;
+    let distinct = p1.nontrivial.len() as u64 + p23.distinct_kill_points + p23.distinct_crash_classes;
+    let exhaustive = p23.exhaustive;
+    let cov = json!({
+        "evaluations": evaluations,
+        "distinct_nontrivial": distinct,
+        "exhaustive": exhaustive,
+        "rule": "part1: every (puller x compression x n x trailer x verifier) configuration is first run fault-free to MEASURE its response count R and wire stream; then every producer-failure byte position 0..=n, cut after response k and cut on request k for k=1..=R, scripted error on the k-th next, error to open, last-never-sent-then-EOF, x destination {absent, pre-existing}; plus rename-onto-non-empty-directory and missing-parent rows. part2: per (file puller x compression x destination) a strace dry run measures the syscall history on the temp/destination paths (-P) and the socket receives; one child run per (syscall name, k) for every k up to the measured count with inject=<name>:signal=SIGKILL:when=k. part3: every prefix of the recorded history x every subset of writes not yet covered by fsync/fdatasync dropped, through a rename-atomic file-system model.",
+        "bound": {
+            "chunk_bytes": tier.pick(json!([4]), json!([3,4,8])),
+            "n": tier.pick("{0,1,c,2c+1,3c+1}", "0..=3c+1"),
+            "value_elements": tier.pick(json!([0,3]), json!([0,1,3,6])),
+            "trailer_len": tier.pick("{0,1,3,n,n+1}", "{0,1,2,3,5,n,n+1}"),
+            "session_depth": 2,
+            "child_process_stream_shapes_n_chunk": tier.pick(json!([[0,4],[9,4]]), json!([[0,4],[1,4],[5,4],[8,4],[9,4],[13,4],[10,3],[20000,8192]])),
+            "crash_model_unsynced_write_cap": 14,
+        },
+        "alphabet": {
+            "pullers": ALL_PULLERS.iter().map(|p| p.name()).collect::<Vec<_>>(),
+            "compression": ["none", "zstd"],
+            "destination": ["absent", "existing", "non-empty directory", "parent missing"],
+            "faults": ["producer-fail@p", "cut-after-response@k", "cut-on-request@k", "next-error@k", "open-error", "no-last-then-eof", "verifier rejects", "payload tampered", "trailer tampered", "trailer>stream", "trailer==stream", "SIGKILL@fs-syscall k", "SIGKILL@recv k", "crash@prefix x dropped-unsynced-writes"],
+        },
+        "nonvacuity": {
+            "part1": p1cov,
+            "part2_3": p23.coverage(),
+        },
+        "samples": all_samples,
+    });
+    ctx.finish(
+        "fault_enumeration",
+        cov,
+        &[
+            "the producer is the real SVS engine behind a harness TCP front; transport faults are applied at frame granularity (a cut never splits a response frame)",
+            "async pullers are driven over AsyncClient on a current-thread runtime; WebSocketClient shares run_pull and is not driven separately",
+            "kill points are syscall ENTRIES (the killed syscall is not executed); a kill inside a partially executed write is represented by part 3's dropped/kept un-synced writes at write granularity",
+            "the crash model is POSIX: rename is atomic, fsync/fdatasync makes all earlier writes of that file durable, un-synced writes may be lost independently; durability of the rename itself (directory fsync) is not demanded by the property",
+            "value pullers: Ok is accepted when every wire byte of the stream was delivered and the value equals the producer's (the sync decoder stops at the end of the value without waiting for `last`)",
+        ],
+    )
+}
+
+pub fn replay(case: &Value) -> Result<(), String> {
+    match case["part"].as_u64() {
+        Some(1) => {
+            let c: Case = serde_json::from_value(case["case"].clone()).map_err(|e| e.to_string())?;
+            let l = srv::new_listener().map_err(|e| e.to_string())?;
+            let base = baseline_of(&c.cfg, &l)?;
+            let o = run_case(&c, &l)?;
+            let bad = judge(&c, &base, &o);
+            let bad: Vec<_> = bad.into_iter().filter(|b| !b.key.is_empty()).collect();
+            if bad.is_empty() {
+                Ok(())
+            } else {
+                Err(bad.iter().map(|b| format!("{} :: {}", b.key, b.what)).collect::<Vec<_>>().join("\n"))
+            }
+        }
+        Some(2) | Some(3) => os::replay(case),
+        _ => Err("unknown C10 case".into()),
+    }
+}
+
+pub fn worker(args: &[String]) {
+    os::worker(args)
 }
